@@ -550,9 +550,9 @@ def _tup(t):
 def bounds(quick):
     all33 = [(h, w) for h in (1, 2, 3) for w in (1, 2, 3)]
     if quick:
-        return {"shapes": all33, "mid_shapes": [s for s in all33 if s != (3, 3)], "lens": [1, 2, 3, 4],
-                "geoms": [(2, 0, 0, 3), (4, 1, -2, 3), (8, 0, 0, 10), (8, 3, -4, 10), (6, 1, 2, 10)],
-                "pgeoms": [(2, 0, 0), (4, 1, -2), (2, 3, 3)], "depths": [1, 2, 3], "lattice": 12}
+        return {"shapes": all33, "mid_shapes": [s for s in all33 if s not in ((3, 3), (3, 2))], "lens": [1, 2, 3, 4],
+                "geoms": [(2, 0, 0, 3), (4, 1, -2, 3), (8, 0, 0, 10), (8, 3, -4, 10)],
+                "pgeoms": [(2, 0, 0), (4, 1, -2), (2, 3, 3)], "depths": [1, 2, 3], "lattice": 11}
     return {"shapes": all33 + [(2, 4), (4, 2), (1, 5), (5, 1)], "mid_shapes": all33, "lens": [1, 2, 3, 4, 5, 6],
             "geoms": [(2, 0, 0, 3), (2, 1, 1, 3), (4, 1, -2, 3), (4, 0, 0, 10), (8, 0, 0, 10), (8, 3, -4, 10), (6, 1, 2, 10), (10, 5, 0, 10)],
             "pgeoms": [(2, 0, 0), (4, 1, -2), (2, 3, 3), (6, -5, 2), (8, 0, 7)], "depths": [1, 2, 3, 4], "lattice": 14}
@@ -733,7 +733,7 @@ def run(ctx):
         raise core.MachineryError(f"harness/conf lacks a config entry the decorators need: {e}")
     quick = ctx.quick
     b = bounds(quick)
-    nrand = 400 if quick else 6000
+    nrand = 300 if quick else 6000
     ctx.bounds = {"exhaustive_2d_masks_of_shapes": b["shapes"], "shapes_for_project_transform_relocate": b["mid_shapes"],
                   "1d_and_irregular_lengths": b["lens"], "relocate_geometries(scale,cy,cx,r_min in units of 1/4)": b["geoms"],
                   "project_geometries(scale,cy,cx)": b["pgeoms"], "transform_depths": b["depths"],
